@@ -43,6 +43,17 @@ static void string_replace_all_occurrences_with_char(char *s, const char *occur,
 	}
 }
 
+/* RFC 6901: inside a reference token '~' must be followed by '0' or '1' */
+static int has_invalid_escape(const char *token)
+{
+	for (; *token; token++)
+	{
+		if (token[0] == '~' && token[1] != '0' && token[1] != '1')
+			return 1;
+	}
+	return 0;
+}
+
 static int is_valid_index(const char *path, size_t *idx)
 {
 	size_t i, len = strlen(path);
@@ -107,6 +118,12 @@ static int json_pointer_get_single_path(struct json_object *obj, char *path,
 		return 0;
 	}
 
+	if (has_invalid_escape(path))
+	{
+		errno = EINVAL;
+		return -1;
+	}
+
 	/* RFC states that we first must eval all ~1 then all ~0 */
 	string_replace_all_occurrences_with_char(path, "~1", '/');
 	string_replace_all_occurrences_with_char(path, "~0", '~');
@@ -145,7 +162,13 @@ static int json_pointer_set_single_path(struct json_object *parent, const char *
 	{
 		/* the last reference token has not been unescaped yet */
 		int rc;
-		char *key = strdup(path);
+		char *key;
+		if (has_invalid_escape(path))
+		{
+			errno = EINVAL;
+			return -1;
+		}
+		key = strdup(path);
 		if (!key)
 		{
 			errno = ENOMEM;
